@@ -39,15 +39,34 @@ def _expr_variant(e, var):
         return False
     if isinstance(e, ast.Call) and _dotted(e.func) in INVARIANT_CALLS:
         return False
-    for ch in ast.iter_child_nodes(e):
-        if isinstance(ch, ast.expr) or isinstance(ch, (ast.keyword, ast.comprehension)):
-            if _expr_variant(ch.value if isinstance(ch, ast.keyword) else ch, var) if not isinstance(ch, ast.comprehension) else \
-                    (_expr_variant(ch.iter, var) or any(_expr_variant(i, var) for i in ch.ifs)):
+    if isinstance(e, (ast.ListComp, ast.SetComp, ast.GeneratorExp, ast.DictComp)):
+        # comprehension variables are local to the comprehension: they are variant only if what they iterate over is
+        local = set(var)
+        for g in e.generators:
+            bound, _ = _target_names(g.target)
+            if _expr_variant(g.iter, local):
+                local |= bound
+            else:
+                local -= bound
+            if any(_expr_variant(c, local) for c in g.ifs):
                 return True
-    if isinstance(e, ast.Name) and e.id in var:
-        return True
+        if isinstance(e, ast.DictComp):
+            return _expr_variant(e.key, local) or _expr_variant(e.value, local)
+        return _expr_variant(e.elt, local)
+    if isinstance(e, ast.Lambda):
+        local = set(var) - {a.arg for a in e.args.args}
+        return _expr_variant(e.body, local)
+    if isinstance(e, ast.Name):
+        return e.id in var
     if isinstance(e, ast.Call) and _dotted(e.func) in LOCAL_SOURCES:
         return True
+    for ch in ast.iter_child_nodes(e):
+        if isinstance(ch, ast.keyword):
+            if _expr_variant(ch.value, var):
+                return True
+        elif isinstance(ch, ast.expr):
+            if _expr_variant(ch, var):
+                return True
     return False
 
 
